@@ -1215,7 +1215,8 @@ type mapEffect struct {
 }
 
 type effects struct {
-	fresh     map[Sort]bool // writes into objects allocated inside the loop
+	exact     map[Sort][]Term // single-slot writes through a loop-invariant pointer: exact addresses
+	fresh     map[Sort]bool   // writes into objects allocated inside the loop
 	chrecv    bool
 	mapRoots  []mapEffect
 	ghostVars map[string]bool
@@ -1356,7 +1357,7 @@ func (fr *Frame) loopInvariantLoad(ld *ssa.UnOp, li *loopInfo) (Term, bool) {
 
 func (fr *Frame) loopEffects(li *loopInfo) *effects {
 	vc := fr.vc
-	ef := &effects{sorts: map[Sort][]Term{}, unk: map[Sort]bool{}, ghostVars: map[string]bool{}, fresh: map[Sort]bool{}}
+	ef := &effects{sorts: map[Sort][]Term{}, unk: map[Sort]bool{}, ghostVars: map[string]bool{}, fresh: map[Sort]bool{}, exact: map[Sort][]Term{}}
 	addStore := func(addr ssa.Value, t types.Type) {
 		leaf := map[Sort]bool{}
 		vc.leafSorts(t, leaf)
@@ -1480,6 +1481,12 @@ func (fr *Frame) enterLoop(li *loopInfo, pre *State, phis []*ssa.Phi, phiEntry m
 					if !seen[r.S] {
 						seen[r.S] = true
 						conds = append(conds, fmt.Sprintf("(not (= (rid q!r) %s))", r.S))
+					}
+				}
+				for _, a := range ef.exact[s] {
+					if !seen["="+a.S] {
+						seen["="+a.S] = true
+						conds = append(conds, fmt.Sprintf("(not (= q!r %s))", a.S))
 					}
 				}
 				if ef.fresh[s] {
